@@ -142,6 +142,11 @@ func walkDef(v ssa.Value, depth int, visit func(ssa.Value) bool) {
 				}
 			}
 			rec(x.X, d-1)
+		case *ssa.Alloc:
+			// a spilled parameter / local: what was stored into it
+			for _, s := range localStores(x) {
+				rec(s, d-1)
+			}
 		case *ssa.Call:
 			// do not descend into arguments by default: the value is "result of call"
 			for _, a := range callArgs(x.Common()) {
